@@ -1474,6 +1474,83 @@ def stmle_targets():
     return out
 
 
+def drest_targets():
+    """point estimates of the doubly robust estimators: the four estimate lines of aipw_calculator (difference / ratio x
+    weights given or not: which aggregate of which pseudo-outcome over which rows) and the four plug-in lines of TMLE.fit."""
+    out = []
+    fn = find_function(ast.parse(open(CUTILS).read()), 'aipw_calculator')
+    tops = [st for st in fn.body if isinstance(st, ast.If) and ast.unparse(st.test) == 'difference']
+    if len(tops) != 1:
+        raise TranslateError('aipw_calculator: expected one `if difference:`')
+
+    def branch(stmts, weighted):
+        ws = [st for st in stmts if isinstance(st, ast.If) and ast.unparse(st.test) == 'weights is None']
+        if len(ws) != 1:
+            raise TranslateError('aipw_calculator: expected one `if weights is None:` per measure')
+        return ws[0].orelse if weighted else ws[0].body
+
+    def est_of(stmts):
+        env = {}
+        for st in stmts:
+            if isinstance(st, ast.Assign) and ast.unparse(st.targets[0]) in ('obs', 'obs1, obs0', '(obs1, obs0)', 'estimate'):
+                if ast.unparse(st.targets[0]) in env:
+                    raise TranslateError('aipw_calculator: %s assigned twice in a branch' % ast.unparse(st.targets[0]))
+                env[ast.unparse(st.targets[0])] = ast.unparse(st.value)
+        if 'estimate' not in env:
+            raise TranslateError('aipw_calculator: no estimate in a branch')
+        return env
+    # rows: pseudo-outcomes y1, y0 (None = NaN: the row's outcome is missing and the row is in that arm) and the weight.
+    # np.nanmean(X) averages the rows where X is not NaN; y1 - y0 is NaN as soon as one of them is
+    B = 'filter (fun r => both r) rows'
+    S1, S0 = 'filter (fun r => has1 r) rows', 'filter (fun r => has0 r) rows'
+    umean = lambda col, sel: '(Qsum (fun r => %s r) (%s) / Qlen (%s))' % (col, sel, sel)
+    wmean = lambda col, sel: '(Qsum (fun r => p_w r * %s r) (%s) / Qsum (fun r => p_w r) (%s))' % (col, sel, sel)
+    for diff, tagd in ((True, 'diff'), (False, 'ratio')):
+        for weighted, tagw in ((False, 'now'), (True, 'w')):
+            env = est_of(branch(tops[0].body if diff else tops[0].orelse, weighted))
+            e = env['estimate']
+            if not weighted and diff:
+                if e != 'np.nanmean(y1 - y0)':
+                    raise TranslateError('aipw_calculator: unweighted difference estimate is `%s`' % e)
+                txt = 'Qsum (fun r => v1 r - v0 r) (%s) / Qlen (%s)' % (B, B)
+            elif not weighted:
+                if e != 'np.nanmean(y1) / np.nanmean(y0)':
+                    raise TranslateError('aipw_calculator: unweighted ratio estimate is `%s`' % e)
+                txt = '%s / %s' % (umean('v1', S1), umean('v0', S0))
+            elif diff:
+                want = 'DescrStatsW(y1[obs], weights=np.asarray(weights)[obs]).mean - DescrStatsW(y0[obs], weights=np.asarray(weights)[obs]).mean'
+                if e != want or env.get('obs') != '~np.isnan(y1 - y0)':
+                    raise TranslateError('aipw_calculator: weighted difference estimate is `%s` with obs=`%s`' % (e, env.get('obs')))
+                txt = '%s - %s' % (wmean('v1', B), wmean('v0', B))
+            else:
+                want = 'DescrStatsW(y1[obs1], weights=np.asarray(weights)[obs1]).mean / DescrStatsW(y0[obs0], weights=np.asarray(weights)[obs0]).mean'
+                if e != want or env.get('obs1, obs0', env.get('(obs1, obs0)')) not in ('(~np.isnan(y1), ~np.isnan(y0))', '~np.isnan(y1), ~np.isnan(y0)'):
+                    raise TranslateError('aipw_calculator: weighted ratio estimate is `%s` with %s' % (e, env))
+                txt = '%s / %s' % (wmean('v1', S1), wmean('v0', S0))
+            out.append(RawTarget('aipw_est_%s_%s' % (tagd, tagw), 'Definition aipw_est_%s_%s_Q (rows : list prow) : Q :=\n  %s.' % (tagd, tagw, txt),
+                                 ['rows'], ['estimate']))
+    # ---- TMLE.fit plug-ins
+    TM = os.path.join(REPO, 'zepid/causal/doublyrobust/TMLE.py')
+    fit = find_function(ast.parse(open(TM).read()), 'TMLE.fit')
+    M1, M0 = '(Qsum (fun r => fst r) rows / Qlen rows)', '(Qsum (fun r => snd r) rows / Qlen rows)'
+    for attr, tag in (('average_treatment_effect', 'ate'), ('risk_difference', 'rd'), ('risk_ratio', 'rr'), ('odds_ratio', 'or')):
+        hits = [st for st in ast.walk(fit) if isinstance(st, ast.Assign) and ast.unparse(st.targets[0]) == 'self.' + attr]
+        if len(hits) != 1:
+            raise TranslateError('TMLE.fit: expected one assignment to self.%s, found %d' % (attr, len(hits)))
+        u = ast.unparse(hits[0].value)
+        if u == 'np.nanmean(Qstar1 - Qstar0)':
+            txt = 'Qsum (fun r => fst r - snd r) rows / Qlen rows'
+        else:
+            v = _MeanRewrite().visit(ast.parse(u, mode='eval').body)
+            if sorted(set(_free_names(v)) - {'np'}) != ['mean_Qstar0', 'mean_Qstar1']:
+                raise TranslateError('TMLE.fit: self.%s is `%s`' % (attr, u))
+            tr = FnTranslator('tmle_est_' + tag, ['mean_Qstar1', 'mean_Qstar0'])
+            txt = emit(tr.expr(v), 'Q').replace('v_mean_Qstar1', M1).replace('v_mean_Qstar0', M0)
+        out.append(RawTarget('tmle_est_' + tag, '(* rows: the targeted predictions (Qstar1, Qstar0) of every row *)\n'
+                             'Definition tmle_est_%s_Q (rows : list (Q * Q)) : Q :=\n  %s.' % (tag, txt), ['rows'], ['estimate']))
+    return out
+
+
 class RawTargetR(RawTarget):
     """ready-made Coq text over R"""
     def __init__(self, name, r_text):
@@ -1504,6 +1581,7 @@ GROUPS = {
     'xftmle': xftmle_targets,
     'basefit': basefit_targets,
     'stmle': stmle_targets,
+    'drest': drest_targets,
 }
 
 
@@ -1518,7 +1596,7 @@ def generate(groups=None):
         try:
             ts = fn()
             r = HEADER_R + '\n' + '\n\n'.join(t.coq() for t in ts) + '\n'
-            q = HEADER_Q + ('From Zepid Require Import Base.QSum Base.QAgg.\n' if g in ('pool', 'gfmarg', 'siptw', 'slcoef') else '') + ('From Zepid Require Import Base.QSum Base.QAgg Base.Rows Model.Estimators.\n' if g == 'xfvar' else '') + ('From Zepid Require Import Model.Gate.\n' if g == 'gate' else '') + ('From Zepid Require Import Base.QSum Base.QAgg Base.Rows Model.Estimators Model.Variance.\n' if g == 'stmle' else '') + ('From Coq Require Import ZArith.\nFrom Zepid Require Import Base.QSum Model.Frames.\n' if g == 'basefit' else '') + ('From Zepid Require Import Base.QSum Base.QAgg Base.Rows Model.Estimators Model.Variance.\n' if g == 'xftmle' else '') + ('From Zepid Require Import Base.QSum Base.QAgg Model.Generalize.\n' if g == 'gener' else '') + '\n' + '\n\n'.join(t.coq_q() for t in ts) + '\n'
+            q = HEADER_Q + ('From Zepid Require Import Base.QSum Base.QAgg.\n' if g in ('pool', 'gfmarg', 'siptw', 'slcoef') else '') + ('From Zepid Require Import Base.QSum Base.QAgg Base.Rows Model.Estimators.\n' if g == 'xfvar' else '') + ('From Zepid Require Import Model.Gate.\n' if g == 'gate' else '') + ('From Zepid Require Import Base.QSum Base.QAgg Base.Rows Model.Estimators Model.Variance.\n' if g in ('stmle', 'drest') else '') + ('From Coq Require Import ZArith.\nFrom Zepid Require Import Base.QSum Model.Frames.\n' if g == 'basefit' else '') + ('From Zepid Require Import Base.QSum Base.QAgg Base.Rows Model.Estimators Model.Variance.\n' if g == 'xftmle' else '') + ('From Zepid Require Import Base.QSum Base.QAgg Model.Generalize.\n' if g == 'gener' else '') + '\n' + '\n\n'.join(t.coq_q() for t in ts) + '\n'
             side[g] = [t.sidecar() for t in ts]
             err = None
         except (TranslateError, SyntaxError, OSError) as e:
